@@ -23,7 +23,7 @@ def key (n : Nat) (s : S) : String :=
   let one (r : Nat) : String :=
     let c := match s.cache r with
       | none => "-"
-      | some e => s!"{e.version}:{e.spec.static}:{e.spec.cond}:{e.deps}:{e.deps.map e.seen}"
+      | some e => s!"{e.version}:{e.spec.static}:{e.spec.cond}:{e.spec.failWhen}:{e.deps}:{e.deps.map e.seen}"
     let m := match s.mon r with | .none => "n" | .starting => "s" | .waiting => "w"
     s!"[{c}|g{s.gen r}|s{s.subs r}|q{s.queue r}|{m}|p{s.prepT r}]"
   String.join (rs.map one) ++ s!"c{s.clock}"
@@ -116,7 +116,10 @@ def handle (j : J) : Except String J := do
             | [c, d] => pure (c, d)
             | _ => throw "bad cond pair"
         | none => pure []
-      let spec : CondSpec Nat := { static := deps, cond := cond }
+      let failWhen ← match (ev.getD "fail").arr? with
+        | some _ => natList (ev.getD "fail")
+        | none => pure []
+      let spec : CondSpec Nat := { static := deps, cond := cond, failWhen := failWhen }
       sess := { sess with cands := dedup n (sess.cands.map fun s => offer dcl s r v spec) }
     | "delete" =>
       let r := (← ev.getInt "r").toNat
